@@ -6,7 +6,7 @@ ID = "C09"
 LEVEL = "exploration"
 PROBES = ("forwards", "twin_checks")
 RULE = ("DeepONets over generated architectures (FC trunk with/without Sequential(NormalizationLayer, .), FC and Conv1D branches, "
-        "trunk input dimension 1-2, function output dimension 1-2, output dimension 1-3) and a *history* of operations: "
+        "trunk input dimension 1-2, function output dimension 1-2, output dimension 1-3; half of the cases with per-layer activation lists (tanh/sigmoid/softplus/silu) and xavier-gain lists over 1-3 hidden layers) and a *history* of operations: "
         "fix_branch_input(kind) with kind in {callable, 2D tensor, 3D tensor, Points, FunctionSet, FunctionSetCollection = sum of 2-4 function sets of unequal sizes}, "
         "forward(trunk batch) with shared (N,d) and per-function (F,N,d) layouts, forward(trunk, branch_inputs=...). After every "
         "forward: out[i,j,c] == sum_m B[i,c,m] T[j,c,m] with B computed by applying the branch layers ourselves to our own "
@@ -35,6 +35,18 @@ def gen_case(seed, tier="quick"):
             "u": r.choice((1, 1, 2, 3)), "D": r.choice((3, 5, 8)), "m": r.choice((2, 4, 5)),
             "branch": r.choice(("fc", "fc", "conv")), "bhidden": r.choice(([4], [5, 3])), "thidden": r.choice(([4], [4, 4])),
             "norm_layer": r.random() < 0.3, "fault": None}
+    ra = rnd(seed, "activations")
+    if ra.random() < 0.5:
+        # per-layer activation and gain lists (up to three hidden layers)
+        case["thidden"] = ra.choice(([4], [4, 4], [3, 4, 3], [5, 3]))
+        case["tacts"] = [ra.choice(("tanh", "sigmoid", "softplus", "silu")) for _ in case["thidden"]]
+        if ra.random() < 0.5:
+            case["tgains"] = [ra.choice((1.0, 5 / 3, 0.5)) for _ in case["thidden"]]
+        if case["branch"] == "fc" and ra.random() < 0.6:
+            case["bhidden"] = ra.choice(([4], [5, 3], [3, 3, 3]))
+            case["bacts"] = [ra.choice(("tanh", "sigmoid", "softplus", "silu")) for _ in case["bhidden"]]
+            if ra.random() < 0.5:
+                case["bgains"] = [ra.choice((1.0, 5 / 3, 0.5)) for _ in case["bhidden"]]
     hist = []
     for _ in range(r.randint(2, 8)):
         c = r.random()
